@@ -14,7 +14,8 @@ Record sobs := SObs { o_reply : reply;
 
 (* ---- timing level: one observation per exchange *)
 Record xobs := XObs { x_tx : list N;              (* wire sequence number of every transmission, in order *)
-                      x_resp : list N;            (* per response handed in: 1 delivered, 2 ignored, 3 reader blocked, 4 never read *)
+                      x_resp : list N;            (* per response handed in: 1 delivered to the requester, 2 ignored; the harness also reports 3 = HandlePFCPMsg
+                                                     never returned, which no model run produces *)
                       x_teardown : N }.           (* Shutdown ran by itself (0/1) *)
 
 Inductive case :=
@@ -64,7 +65,7 @@ Fixpoint resp_of (o : list out) : list N :=
   match o with
   | [] => []
   | Deliver :: r => 1 :: resp_of r | Ignored :: r => 2 :: resp_of r
-  | ReaderBlocked :: r => 3 :: resp_of r | Unread :: r => 4 :: resp_of r
+  | DeliverOther :: r => 5 :: resp_of r
   | _ :: r => resp_of r
   end.
 Fixpoint td_of (o : list out) : N := match o with [] => 0 | Teardown :: r => 1 + td_of r | _ :: r => td_of r end.
@@ -96,7 +97,7 @@ Fixpoint tick_check (i tol slack : N) (s : tst) (last : N) (owed : bool) (evs : 
 Definition agrees (c : case) : bool :=
   match c with
   | CSync cf ts evs obs => all2 sobs_eqb (sync_run cf (ainit ts) evs) obs
-  | CExch n c0 xs obs => all2 xobs_eqb (calls n (C c0 [] false) true xs) obs
+  | CExch n c0 xs obs => all2 xobs_eqb (calls n (C c0 []) true xs) obs
   | CTick i tol slack t0 evs tend => tick_check i tol slack (tstart i) t0 false evs tend
   end.
 
